@@ -7,6 +7,15 @@ CHECKS = {
  "C01": dict(cat="exploration", sec="4 C01", tech="reference-model monitor on leaves over generated hostile histories (runtime monitoring)",
    text="Real Witness.Update is driven with generated hostile histories (forked log-signed checkpoints, wrong old sizes, forged/truncated/padded/replayed proofs) on all three storages; after every request the stored checkpoint is read back and the per-log list of cosigned checkpoints is judged on the leaves of the harness's own RFC 6962 trees. Held on the executions listed in the evidence, with floors on accepted growth steps and on refused forks that carried an internally valid proof.",
    note="Assumes SHA-256/Ed25519; ground truth is kit/reftree (written from the RFC, cross-checked against x/mod tlog at start-up); only generated histories are covered."),
+ "C02": dict(cat="exploration", sec="4 C02", tech="authenticity monitor (refnote) over exhaustive single-fixture mutation sweeps and cross-log replays (runtime monitoring)",
+   text="For drawn configurations of 1-6 logs (shared keys under different origins, hand-made and derived IDs) every valid fixture is put through every single-bit flip, every truncation, every line drop/duplication/swap, signature-block edits, cross-log/cross-origin replays and unknown IDs, in the first-use and a populated state, with the old size and proof that would make an authentic checkpoint acceptable. Any accept or state change for bytes that kit/refnote does not judge authentic for that ID is a violation.",
+   note="Authentic := text signed by the harness with the log's key + origin match + verifying signature line (kit/refnote). One-directional: authentic => accepted is C08/C09."),
+ "C03": dict(cat="exploration", sec="4 C03", tech="before/after state snapshot comparator around every refused Update, incl. injected storage faults (runtime monitoring)",
+   text="Around every Update of generated hostile histories (with storage faults injected at open-for-write/read/write in ~8% of requests) the full observable state (log list, every configured and three unconfigured IDs, raw SQLite rows) is snapshotted; a refusal must leave it byte-identical and return nothing or exactly the previously stored checkpoint. Every refusal is classified by the reference model; each of the 11 reachable class x stored cells has a floor of 200 observations.",
+   note="Observable state = GetLogs/GetCheckpoint/raw table; injected write faults do not perform the write."),
+ "C04": dict(cat="exploration", sec="4 C04", tech="output monitor decoding every returned/read checkpoint with an independent note reader; wall-clock window inequality for timestamps (runtime monitoring)",
+   text="Every accepted update and every stored checkpoint read back (in-process and through the real internal/http router) is decoded with kit/refnote: text identical to the submitted text, valid log signature, exactly one valid line per configured witness key (1-4 keys, legacy and cosignature/v1, production pair), cosignature time inside [clock before call, clock after call], read-after-accept identical. >=64 discriminating refreshes are issued after the clock passed the previous signature's second.",
+   note="Assumes the system clock is not stepped backwards; inequality between clock readings, not a deadline."),
 }
 
 NOT_YET = "check not built yet in this session (planned, see DESIGN.md section 4)"
